@@ -1,7 +1,7 @@
 // Package unit drives storageUnit.NewStorageUnit(cacher, persister) (C16): every cacher the
 // factory can build (LRU, size-bounded LRU, FIFO sharded) over a persister (memorydb, LevelDB,
-// serial LevelDB) wrapped in a stub that fails Put/Remove/Get/Has on the schedule carried by
-// each operation.
+// serial LevelDB) wrapped in a stub that fails Put/Remove/Get/Has/Close/Destroy on the schedule
+// carried by each operation.
 //
 // Wire format (see coq/theories/Unit/UnitComp.v for the same table):
 //
@@ -12,6 +12,9 @@
 //	op 4  via key [ oracle ]           Remove / RemoveFromCurrentEpoch  -> 6=error class
 //	op 5                               ClearCache
 //	op 6  cold [ keys ] [ oracle ]     GetBulkFromEpoch                 -> [8=[ k v k v .. ]]
+//	op 7                               RangeKeys                        -> [9=[ k v k v .. ] sorted by key] (memorydb only)
+//	op 8  [ oracle ]                   DestroyUnit                      -> 10=error class 12=entries left in the cache
+//	op 9  [ oracle ]                   Close                            -> 11=error class 12=entries left in the cache
 //	every op                                                            -> 7=[ persister's value|- per key of the alphabet ]
 //
 // Only observables that do not depend on the cache's eviction policy are printed (the property
@@ -24,6 +27,7 @@ import (
 	"fmt"
 	"math/rand"
 	"path/filepath"
+	"sort"
 
 	logger "github.com/multiversx/mx-chain-logger-go"
 	"github.com/multiversx/mx-chain-storage-go/common"
@@ -49,14 +53,16 @@ const prop = "C16"
 
 var errInjected = errors.New("injected persister failure")
 
-// failingPersister consumes one oracle bit per Put/Get/Has/Remove call, in call order; a true
+// failingPersister consumes one oracle bit per Put/Get/Has/Remove/Close/Destroy call, in call order; a true
 // bit makes the call fail without reaching the wrapped persister. An exhausted oracle never fails.
 type failingPersister struct {
 	types.Persister
 	bits      []bool
 	fired     int // injected failures during the current operation
 	firedGets int // ... of which Get calls for a key the persister holds
-	calls     int // persister calls (Put/Get/Has/Remove) during the current operation
+	calls     int // persister calls (Put/Get/Has/Remove/Close/Destroy) during the current operation
+	closes    int // Close calls that reached the wrapped persister (whole history)
+	destroys  int // Destroy calls that reached the wrapped persister (whole history)
 }
 
 func (p *failingPersister) arm(bits []bool) {
@@ -105,6 +111,23 @@ func (p *failingPersister) Remove(key []byte) error {
 		return errInjected
 	}
 	return p.Persister.Remove(key)
+}
+
+// Close / Destroy: a true bit makes the call fail without reaching the wrapped persister
+func (p *failingPersister) Close() error {
+	if p.next() {
+		return errInjected
+	}
+	p.closes++
+	return p.Persister.Close()
+}
+
+func (p *failingPersister) Destroy() error {
+	if p.next() {
+		return errInjected
+	}
+	p.destroys++
+	return p.Persister.Destroy()
 }
 
 func (p *failingPersister) IsInterfaceNil() bool { return p == nil }
@@ -192,11 +215,35 @@ func (comp) Gen(p string, rng *rand.Rand, tier string) *core.History {
 	failEvery := core.Pick(rng, []int{4, 6, 6, 8, 12, 1000})
 	bit := func() bool { return core.Chance(rng, 1, failEvery) }
 	nops := 12 + rng.Intn(19)
+	// life-cycle operations (RangeKeys, DestroyUnit, Close) in 2 histories out of 5. A SUCCESSFUL Close /
+	// DestroyUnit in the middle of a history only over memorydb (Close does nothing, Destroy leaves an
+	// empty usable map; a closed LevelDB is C09's subject); over LevelDB they are made to fail (the stub
+	// fails before reaching the persister), except a successful DestroyUnit as the very last operation.
+	life := core.Chance(rng, 2, 5)
 	for i := 0; i < nops; i++ {
 		k := core.Pick(rng, keys)
 		x := rng.Intn(100)
 		if i < 2 {
 			x = 0 // start with writes: reads of an empty unit are not interesting
+		}
+		if life && i >= 2 && core.Chance(rng, 1, 5) {
+			y := rng.Intn(10)
+			fail := core.Chance(rng, 1, 2)
+			switch {
+			case y < 4:
+				h.Add(7, "RangeKeys")
+			case y < 7:
+				if pkind != 0 && i != nops-1 {
+					fail = true
+				}
+				h.Add(8, fmt.Sprintf("DestroyUnit fail=%v", fail), oracleTok([]bool{fail}))
+			default:
+				if pkind != 0 {
+					fail = true
+				}
+				h.Add(9, fmt.Sprintf("Close fail=%v", fail), oracleTok([]bool{fail}))
+			}
+			continue
 		}
 		switch {
 		case x < 36:
@@ -274,16 +321,39 @@ func exhaustiveOps() []xop {
 	}
 }
 
+// lifeOps: the alphabet of the second exhaustive family (life-cycle operations among a few data operations)
+func lifeOps() []xop {
+	k1, k2 := allKeys[0], allKeys[1]
+	v1 := smallValues[0]
+	o := func(f bool) string { return oracleTok([]bool{f}) }
+	return []xop{
+		{1, func(f bool) []string { return []string{core.N(0), core.B(k1), core.B(v1), o(f)} }, true},
+		{1, func(f bool) []string { return []string{core.N(0), core.B(k2), core.B(v1), o(f)} }, true},
+		{2, func(f bool) []string { return []string{core.N(0), core.Bool(false), core.B(k1), o(f)} }, true},
+		{3, func(f bool) []string { return []string{core.Bool(false), core.B(k2), o(f)} }, true},
+		{7, func(f bool) []string { return nil }, false},
+		{8, func(f bool) []string { return []string{o(f)} }, true},
+		{9, func(f bool) []string { return []string{o(f)} }, true},
+	}
+}
+
 // Exhaustive: every sequence of at most L of the nine operations above on two keys, with no
 // failure or with exactly one failing operation at every position, for each cacher kind
 // (LRU capacity 1, size-bounded LRU capacity 1, FIFO sharded capacity 2); plus every sequence of
 // exactly L+1 operations for the plain LRU of capacity 1. L = 3 (quick) / 4 (thorough).
+// Second family: the same enumeration (lengths <= L, all three cacher kinds, cache capacity 2 for the
+// LRUs so that both keys can be cached when DestroyUnit / Close arrive) over the seven operations of
+// lifeOps (Put k1, Put k2, Get k1, Has k2, RangeKeys, DestroyUnit, Close).
 func (comp) Exhaustive(p string, tier string, yield func(*core.History)) {
 	maxLen := 3
 	if tier == "thorough" {
 		maxLen = 4
 	}
-	ops := exhaustiveOps()
+	exhaustiveOver(exhaustiveOps(), [][3]int{{0, 1, 1}, {1, 1, 1}, {2, 2, 1}}, maxLen, true, yield)
+	exhaustiveOver(lifeOps(), [][3]int{{0, 2, 1}, {1, 2, 1}, {2, 3, 1}}, maxLen, false, yield)
+}
+
+func exhaustiveOver(ops []xop, allKinds [][3]int, maxLen int, longer bool, yield func(*core.History)) {
 	keys := allKeys[:2]
 	emit := func(seq []int, kinds [][3]int) {
 		for failAt := -1; failAt < len(seq); failAt++ {
@@ -300,11 +370,14 @@ func (comp) Exhaustive(p string, tier string, yield func(*core.History)) {
 			}
 		}
 	}
-	allKinds := [][3]int{{0, 1, 1}, {1, 1, 1}, {2, 2, 1}} // kind, capacity, shards
+	// allKinds: kind, capacity, shards
 	var rec func(seq []int)
 	rec = func(seq []int) {
 		if len(seq) > 0 && len(seq) <= maxLen {
 			emit(seq, allKinds)
+		}
+		if len(seq) == maxLen && !longer {
+			return
 		}
 		if len(seq) == maxLen+1 {
 			emit(seq, allKinds[:1])
@@ -395,6 +468,41 @@ func distinct(ks [][]byte) bool {
 		seen[string(k)] = true
 	}
 	return true
+}
+
+// collect runs a RangeKeys with a handler that keeps every pair and always asks for more; sorted by key
+func collect(rangeKeys func(func(k, v []byte) bool)) [][2][]byte {
+	var out [][2][]byte
+	rangeKeys(func(k, v []byte) bool {
+		out = append(out, [2][]byte{append([]byte{}, k...), append([]byte{}, v...)})
+		return true
+	})
+	sortPairs(out)
+	return out
+}
+
+func sortPairs(p [][2][]byte) {
+	sort.SliceStable(p, func(x, y int) bool { return bytes.Compare(p[x][0], p[y][0]) < 0 })
+}
+
+func samePairs(x, y [][2][]byte) bool {
+	if len(x) != len(y) {
+		return false
+	}
+	for i := range x {
+		if !bytes.Equal(x[i][0], y[i][0]) || !bytes.Equal(x[i][1], y[i][1]) {
+			return false
+		}
+	}
+	return true
+}
+
+func pairToks(p [][2][]byte) []string {
+	t := make([]string, 0, 2*len(p))
+	for _, kv := range p {
+		t = append(t, core.B(kv[0]), core.B(kv[1]))
+	}
+	return t
 }
 
 func (comp) Run(h *core.History, scratch string) *core.Result {
@@ -574,6 +682,90 @@ func (comp) Run(h *core.History, scratch string) *core.Result {
 			e.u.ClearCache()
 			if e.cacher.Len() != 0 {
 				res.Failf(prop, i, "ClearCache left %d entries in the cache", e.cacher.Len())
+			}
+		case 7: // RangeKeys
+			got := collect(func(hd func(k, v []byte) bool) { e.u.RangeKeys(hd) })
+			direct := collect(func(hd func(k, v []byte) bool) { e.inner.RangeKeys(hd) })
+			pk := core.ParseArgs(h.Config)[3].Int()
+			if pk == 0 {
+				obs = append(obs, core.Lbl(9, core.L(pairToks(got)...)))
+			}
+			// monitor: RangeKeys visits exactly the persister's pairs, regardless of the cache content ...
+			if !samePairs(got, direct) {
+				res.Failf(prop, i, "RangeKeys visited %d pairs %v, the persister's own RangeKeys visits %d pairs %v", len(got), pairToks(got), len(direct), pairToks(direct))
+			}
+			// ... which, everything being written through (memorydb), is the map of acknowledged writes
+			if pk == 0 {
+				var want [][2][]byte
+				for k, v := range e.ref {
+					want = append(want, [2][]byte{[]byte(k), v})
+				}
+				sortPairs(want)
+				if !samePairs(got, want) {
+					res.Failf(prop, i, "RangeKeys visited %v, the acknowledged writes are %v", pairToks(got), pairToks(want))
+				}
+			}
+			res.Hit("range-keys")
+			if len(got) > len(before) {
+				res.Hit("range-keys-more-than-cached")
+			}
+		case 8, 9: // DestroyUnit, Close
+			o := oracleOf(a[0])
+			e.stub.arm(o)
+			reached := e.stub.destroys + e.stub.closes
+			var err error
+			name := "DestroyUnit"
+			if op.Code == 8 {
+				err = e.u.DestroyUnit()
+				obs = append(obs, core.Lbl(10, core.N(errClass(err))))
+			} else {
+				name = "Close"
+				err = e.u.Close()
+				obs = append(obs, core.Lbl(11, core.N(errClass(err))))
+			}
+			obs = append(obs, core.Lbl(12, core.N(uint64(e.cacher.Len()))))
+			// monitor: the persister's error is returned, and only it
+			if (err != nil) != (e.stub.fired > 0) || (err != nil && errClass(err) != 2) {
+				res.Failf(prop, i, "%s: persister failed=%v but the unit returned %v", name, e.stub.fired > 0, err)
+			}
+			if e.stub.calls != 1 || (err == nil && e.stub.destroys+e.stub.closes != reached+1) {
+				res.Failf(prop, i, "%s made %d persister calls, %d of them reaching the persister's %s", name, e.stub.calls, e.stub.destroys+e.stub.closes-reached, name)
+			}
+			// monitor: the cache is cleared in every case - "Close clears the cache even when the persister's
+			// Close fails", "after DestroyUnit the unit's cache is empty"
+			if n := e.cacher.Len(); n != 0 || len(e.cacheSnapshot()) != 0 {
+				res.Failf(prop, i, "%s (error %v) left %d entries in the cache (%d keys of the alphabet still cached)", name, err, n, len(e.cacheSnapshot()))
+			}
+			if len(before) > 0 {
+				res.Hit(name + "-clears-nonempty-cache")
+			}
+			if err != nil {
+				res.Hit("failed-" + name)
+				if len(before) > 0 {
+					res.Hit("failed-" + name + "-still-clears-cache")
+				}
+			} else if op.Code == 8 {
+				// monitor: "... and the persister empty (Get/Has of every key: not found)"
+				if len(e.ref) > 0 {
+					res.Hit("destroy-nonempty-unit")
+				}
+				e.ref = map[string][]byte{}
+				if core.ParseArgs(h.Config)[3].Int() == 0 {
+					if direct := collect(func(hd func(k, v []byte) bool) { e.inner.RangeKeys(hd) }); len(direct) != 0 {
+						res.Failf(prop, i, "DestroyUnit acknowledged but the persister still holds %v", pairToks(direct))
+					}
+					for _, k := range e.keys {
+						e.stub.arm(nil)
+						if v, gerr := e.u.Get(k); gerr == nil {
+							res.Failf(prop, i, "after DestroyUnit Get(%x) = %x", k, v)
+						}
+						if e.u.Has(k) == nil {
+							res.Failf(prop, i, "after DestroyUnit Has(%x) = nil", k)
+						}
+					}
+				}
+			} else {
+				res.Hit("close-ok")
 			}
 		case 6: // GetBulkFromEpoch
 			cold, o := a[0].Bool(), oracleOf(a[2])
